@@ -1296,15 +1296,32 @@ func TestC19Concurrent(t *testing.T) {
 
 	rapid.Check(t, func(rt *rapid.T) {
 		c := &fsCase{}
-		c.keys = fsDrawKeys(rt, 2, 6)
+		// One case in twelve: many savers of large values inside one process,
+		// each with a key of its own, such that Saves of different keys
+		// overlap inside their write calls.
+		heavy := rapid.IntRange(0, 11).Draw(rt, "manySaversOfLargeValues") == 0
+		if heavy {
+			c.keys = append([]uint(nil), fsKeyPool...)
+			for i := 0; i < 15; i++ {
+				c.keys = append(c.keys, uint(0x08100+i*0x111))
+			}
+		} else {
+			c.keys = fsDrawKeys(rt, 2, 6)
+		}
 		c.strays = fsDrawStrays(rt, c.keys)
 		nproc := rapid.IntRange(1, 3).Draw(rt, "processes")
+		if heavy {
+			nproc = 1
+		}
 		var procs [][][]fsOp // process → routine → ops
 		nroutines := 0
 		for p := 0; p < nproc; p++ {
 			n := rapid.IntRange(1, 3).Draw(rt, "routines")
 			if nproc == 1 && n < 2 {
 				n = 2
+			}
+			if heavy {
+				n = len(c.keys)
 			}
 			procs = append(procs, make([][]fsOp, n))
 			nroutines += n
@@ -1313,8 +1330,11 @@ func TestC19Concurrent(t *testing.T) {
 		stable := map[uint]bool{}
 		var stableKeys, volatileKeys []uint
 		owned := make([][]uint, nroutines)
-		for _, k := range c.keys {
-			o := rapid.IntRange(0, nroutines-1).Draw(rt, "owner")
+		for i, k := range c.keys {
+			o := i
+			if !heavy {
+				o = rapid.IntRange(0, nroutines-1).Draw(rt, "owner")
+			}
 			owner[k] = o
 			owned[o] = append(owned[o], k)
 			if rapid.Bool().Draw(rt, "stable") {
@@ -1337,9 +1357,15 @@ func TestC19Concurrent(t *testing.T) {
 		for p := range procs {
 			for r := range procs[p] {
 				n := rapid.IntRange(5, maxOps).Draw(rt, "nops")
+				if heavy {
+					n = rapid.IntRange(4, 8).Draw(rt, "nopsHeavy")
+				}
 				var ops []fsOp
 				for i := 0; i < n; i++ {
 					op := fsOp{Op: rapid.SampledFrom([]string{"save", "save", "save", "load", "load", "list", "delete"}).Draw(rt, "op")}
+					if heavy && i%4 != 3 {
+						op.Op = "save"
+					}
 					switch {
 					case op.Op == "save" && len(owned[ri]) != 0:
 						op.Key = rapid.SampledFrom(owned[ri]).Draw(rt, "key")
@@ -1348,6 +1374,9 @@ func TestC19Concurrent(t *testing.T) {
 						size := fsDrawSize(rt, maxSize)
 						if size > maxSize {
 							size = maxSize
+						}
+						if heavy {
+							size = rapid.IntRange(256<<10, 1<<20).Draw(rt, "sizeHeavy")
 						}
 						op.Parts = fsDrawParts(rt, size)
 						last[op.Key] = fsVal{ver: op.Ver, n: size}
@@ -1454,6 +1483,9 @@ func TestC19Concurrent(t *testing.T) {
 		}
 		_ = nsaves
 		rec.Case(canonical, false, "concurrent-run") // non-trivial is reserved for fault points, see the rule
+		if heavy {
+			rec.Label("concurrent-many-savers-of-large-values", 1)
+		}
 		if len(problems) != 0 {
 			sort.Strings(problems)
 			violate(rt, "C19", "concurrent run without faults: %s\nscript:\n%s", strings.Join(problems, "; "), canonical)
